@@ -71,6 +71,11 @@ func Generate(r *rand.Rand, profile string) *Scenario {
 		sc.Cfg.Env = "closed"
 		sc.Cfg.Cycles = 8
 	}
+	if profile == "fraction" && chance(0.35) {
+		// the binder is caught half way through a multi-device fraction pod when the next cycle starts
+		sc.Cfg.Env = "slowbind"
+		sc.Cfg.Cycles = pick(2, 3)
+	}
 	if profile != "closed" && profile != "fifo" {
 		if chance(0.2) {
 			sc.Cfg.BindFail = []int{1 + r.Intn(4)}
